@@ -395,7 +395,7 @@ CRASH_NOTE = ("crash points: every durable mutating call of the model stores (St
               "'the process dies before this call takes effect'; the REAL NewRaft then runs on the stores as they are. Each single store call is atomic (torn writes inside one call are outside the claim)")
 H_CRASH_AE = {"fn": "vh_crash_ae", "what": "appendEntries (same/newer term, truncation, append, staged commit index) x crash before any durable call or after completion x real NewRaft (with RestoreCommittedLogs on a commit-tracking store): "
               "recovered server satisfies the representation invariant, term never regresses, vote record untouched, everything known committed survives identically, acknowledged entries are durable, replay hands the FSM only agreed entries",
-              "bounds_quick": "W=2, E<=2, leader commit index in {nothing, everything}, lastApplied = snapshot index, <=5 crash points per run (checked)", "bounds_thorough": "W=3, every commit/applied position",
+              "bounds_quick": "W=2, E<=2, leader commit index in {nothing, everything}, lastApplied = snapshot index, <=5 crash points per run (checked)", "bounds_thorough": "W=2, every commit / applied / leader-commit position",
               "covers": ["crash.ae.crashed", "crash.ae.acked-then-crashed", "crash.ae.replayed", "crash.ae.end"], "opts": {"max_paths": 200000}, "thorough": {"max_paths": 2000000, "max_seconds": 7000}}
 H_CRASH_AE_THOROUGH = dict(H_CRASH_AE, quick={"skip": True})
 H_CRASH_VOTE = {"fn": "vh_crash_vote", "what": "requestVote x crash before any stable-store write or after the reply x real NewRaft x a second requestVote (same term or the old term, any candidate) on the recovered server: "
